@@ -36,8 +36,10 @@ DECL_SPELLINGS = [
     '<?xml version="1.0" encoding="%s"?>',
     "<?xml version='1.0' encoding='%s' ?>",
     '<?xml version="1.0"  encoding = "%s"  standalone="yes"?>',
+    '<?xml version = "1.0" encoding="%s"?>',
+    "<?xml  version\t=\t'1.0'\n encoding='%s'?>",
 ]
-DECL_PLAIN = ['<?xml version="1.0"?>', "<?xml version='1.0' ?>"]
+DECL_PLAIN = ['<?xml version="1.0"?>', "<?xml version='1.0' ?>", '<?xml version = "1.0" ?>']
 META_SPELLINGS = [
     '<meta http-equiv="Content-Type" content="text/html; charset=%s" />',
     "<meta http-equiv='Content-Type' content='text/html; charset=%s'>",
@@ -77,7 +79,7 @@ def _case(args):
     n = 0
     d = tempfile.mkdtemp(prefix="c17_")
     try:
-        for variant in range(4):
+        for variant in range(5):
             doc = build_doc(rec, rnd, variant)
             enc = rec["enc"]
             try:
